@@ -62,6 +62,10 @@ def run_scenario(case, layer):
     sim = W.sim
     viol = M.Violations()
     addrs = rng.sample(range(0, 254), n)
+    if rng.random() < 0.2 and 0 not in addrs:
+        addrs[rng.randrange(n)] = 0           # address 0 is a perfectly good (and falsy) address
+    if rng.random() < 0.1 and 253 not in addrs:
+        addrs[rng.randrange(n)] = 253
     windows = case.get('windows') or [rng.choice([1, 1, 2, 3, 5, 16, 255, rng.randint(1, 255)]) for _ in range(n)]
     bam_iv = case.get('bam_interval')
     cas = []
